@@ -23,7 +23,7 @@ Inductive fkind := FRegular | FRequired | FOptional.
 
 Inductive atom := AInt (z : Z) | AStr (s : N) | ABool (b : bool) | ANull.
 
-Inductive skind := KInt | KStr | KBool | KNull | KStruct.
+Inductive skind := KInt | KStr | KBool | KNull | KStruct | KFloat.
 
 Inductive sconstr :=
 | SAtom (a : atom)
@@ -80,7 +80,7 @@ Qed.
 
 Definition skind_eqb (a b : skind) : bool :=
   match a, b with
-  | KInt, KInt | KStr, KStr | KBool, KBool | KNull, KNull | KStruct, KStruct => true
+  | KInt, KInt | KStr, KStr | KBool, KBool | KNull, KNull | KStruct, KStruct | KFloat, KFloat => true
   | _, _ => false
   end.
 
@@ -107,7 +107,7 @@ Definition sc_kind_ok (k : skind) (c : sconstr) : bool :=
   match c with
   | SAtom a => skind_eqb (atom_kind a) k
   | SKind k' => skind_eqb k' k
-  | _ => skind_eqb KInt k
+  | _ => skind_eqb KInt k || skind_eqb KFloat k   (* a bound with a numeric operand admits any number *)
   end.
 
-Definition all_kinds : list skind := [KInt; KStr; KBool; KNull; KStruct].
+Definition all_kinds : list skind := [KInt; KStr; KBool; KNull; KStruct; KFloat].
